@@ -146,6 +146,10 @@ def main(argv=None):
         solver_ms += res["solver_ms"]
         queries += res["queries"]
         for r in res["records"]:
+            if not re.match(r"C\d\d/", r["id"]):
+                errors.append((res["task"], f"obligation without property prefix: {r['id']}"))
+            if not r["id"].startswith(prop + "/"):
+                continue          # shared tasks also emit obligations of other properties
             cur = obligations.get(r["id"])
             rank = {"failed": 2, "undecided": 1, "discharged": 0}
             if cur is None:
